@@ -502,18 +502,27 @@ func runC14(c *Ctx) {
 				n++
 				var put ssa.Instruction
 				putDeferred := false
+				nPut := 0
 				var uses []ssa.Instruction
 				for _, r := range *req.Referrers() {
 					switch x := r.(type) {
 					case *ssa.Defer:
 						if cal := x.Call.StaticCallee(); cal != nil && strings.Contains(calleeName(cal), ".Put") {
 							put, putDeferred = x, true
+							nPut++
 							continue
 						}
 						uses = append(uses, r)
 					case *ssa.Call:
 						if cal := x.Call.StaticCallee(); cal != nil && strings.Contains(calleeName(cal), "syncutil.Pool") && strings.Contains(calleeName(cal), ".Put") {
+							if putDeferred {
+								// a second release next to the deferred one
+								nPut++
+								bad = c.P.Pos(x.Pos()) + ": the request is put back into the pool here and again by the deferred Put: the pool then hands the same object to two goroutines (data race, answers for the wrong hostname)"
+								continue
+							}
 							put = x
+							nPut++
 							continue
 						}
 						uses = append(uses, r)
@@ -537,6 +546,29 @@ func runC14(c *Ctx) {
 						uses = append(uses, in)
 					}
 				})
+				if nPut > 1 && bad == "" {
+					// several explicit releases: at most one may be reached on any path
+					var puts []ssa.Instruction
+					for _, r := range *req.Referrers() {
+						if x, ok := r.(*ssa.Call); ok {
+							if cal := x.Call.StaticCallee(); cal != nil && strings.Contains(calleeName(cal), "syncutil.Pool") && strings.Contains(calleeName(cal), ".Put") {
+								puts = append(puts, x)
+							}
+						}
+						if x, ok := r.(*ssa.Defer); ok {
+							if cal := x.Call.StaticCallee(); cal != nil && strings.Contains(calleeName(cal), ".Put") {
+								bad = c.P.Pos(x.Pos()) + ": the request is released by a deferred Put and by an explicit one"
+							}
+						}
+					}
+					for i := range puts {
+						for j := range puts {
+							if i != j && instrReaches(puts[i], puts[j]) && bad == "" {
+								bad = c.P.Pos(puts[j].Pos()) + ": the request is put back into the pool twice on one path"
+							}
+						}
+					}
+				}
 				switch {
 				case put == nil && bad == "":
 					bad = "the pooled request is never returned to the pool"
